@@ -242,6 +242,18 @@ def run_prog(p, lib):
         ind = tuple(range(a.ndim))
         out = tuple(i for i in ind if i != ax)
         return da.blockwise(_SumList(ax), out, a, ind, dtype=a.sum(axis=ax).dtype)
+    if op == "bwc":  # two-argument contraction over symbol `ax`: out = sum_ax a * b ; b may be broadcast (size 1) along ax
+        a = run_prog(p["a"], lib)
+        b = run_prog(p["b"], lib)
+        ia = list(range(a.ndim))
+        ib = list(p["ib"])
+        out = [s for s in ia if s != p["axis"]]
+        sig = _einsum_sig(ia, ib, out)
+        if lib == "np":
+            full = np.broadcast_to(b, tuple(a.shape[s] for s in ib))
+            return np.einsum(sig, a, full)
+        return da.blockwise(_Contract(sig, p["conc"]), tuple(out), a, tuple(ia), b, tuple(ib),
+                            concatenate=True if p["conc"] else None, dtype=np.result_type(a.dtype, b.dtype))
     if op == "bw2":  # two-argument blockwise with explicit index strings: f(a, b) = a + b (broadcast by index)
         a = run_prog(p["a"], lib)
         b = run_prog(p["b"], lib)
@@ -297,6 +309,38 @@ class _SumList:
 
     def __dask_tokenize__(self):
         return ("_SumList", self.ax)
+
+
+class _Contract:
+    """f for a two-argument blockwise contraction: with concatenate=True it receives whole (concatenated) blocks,
+    otherwise lists of blocks along the contracted index (an argument broadcast along it arrives repeated)."""
+
+    def __init__(self, sig, conc):
+        self.sig, self.conc = sig, bool(conc)
+
+    def _one(self, x, y):
+        import numpy as np
+        ins, _ = self.sig.split("->")
+        sa, sb = ins.split(",")
+        shape = tuple(x.shape[sa.index(c)] for c in sb)
+        return np.einsum(self.sig, x, np.broadcast_to(y, shape))
+
+    def __call__(self, a, b):
+        if isinstance(a, list):
+            bs = b if isinstance(b, list) else [b] * len(a)
+            if len(bs) != len(a):
+                raise ValueError(f"blockwise passed {len(a)} blocks of a but {len(bs)} of b")
+            r = None
+            for x, y in zip(a, bs):
+                t = self._one(x, y)
+                r = t if r is None else r + t
+            return r
+        if isinstance(b, list):
+            raise ValueError("blockwise passed a list for b but a single block for a")
+        return self._one(a, b)
+
+    def __dask_tokenize__(self):
+        return ("_Contract", self.sig, self.conc)
 
 
 class _AlignAdd:
@@ -589,6 +633,17 @@ class ProgGen:
             if r.random() < 0.5:
                 q["chunks"][0] = list(self._chunks_of(p, -1)) if self._chunks_of(p, -1) else q["chunks"][0]
             return {"op": "dot", "a": p, "b": q}
+        if op == "bwc":
+            if kind in "bMm" or nd < 1:
+                return None
+            ax = r.randrange(nd)
+            ib = [s for s in range(nd) if s == ax or r.random() < 0.4]
+            if r.random() < 0.2:
+                ib = [s for s in ib if s != ax]
+            r.shuffle(ib)
+            shb = [x.shape[s] if r.random() < 0.6 else 1 for s in ib]
+            q = self.leaf(shb, str(x.dtype))
+            return {"op": "bwc", "a": p, "b": q, "axis": ax, "ib": ib, "conc": r.random() < 0.6}
         if op == "bw2":
             if kind in "bMm":
                 return None
